@@ -1119,7 +1119,9 @@ func (bc *Blockchain) resetStateInternal(height uint32, stage stateChangeStage) 
 		p = time.Now()
 		var mode = mpt.ModeAll
 		if bc.config.RemoveUntraceableBlocks {
-			mode |= mpt.ModeGCFlag
+			// Node records carry reference counters, but nodes of the target
+			// state that later blocks made inactive must stay accessible.
+			mode |= mpt.ModeLatest
 		}
 		trieStore := mpt.NewTrieStore(sr.Root, mode, upperCache.Store)
 		oldStoragePrefix := v.StoragePrefix
